@@ -264,6 +264,29 @@ fn observe_valid(id: &str, kind: &str, bytes: &[u8], w: &mut dyn Write) {
     let _ = writeln!(w, "end");
 }
 
+/// A small valid machine string that is parsed again on the same thread right after every hostile
+/// string: parsing "any other string" must not leave anything behind that changes how a valid string
+/// parses afterwards (`canary ok|FAIL ...`).
+fn canary_line(w: &mut dyn Write) {
+    use std::sync::OnceLock;
+    static CANARY: OnceLock<(String, Vec<u8>)> = OnceLock::new();
+    let (cs, cb) = CANARY.get_or_init(|| {
+        let mut p = Prng::new(0xCA9A21);
+        let cfg = crate::genm::GenCfg::default();
+        let m = crate::genm::gen_machine(&mut p, &cfg);
+        (m.serialize(), bincode_of(&m))
+    });
+    let r = catch_unwind(AssertUnwindSafe(|| Machine::from_str(cs)));
+    let verdict = match r {
+        Ok(Ok(m)) => {
+            if bincode_of(&m) == *cb && m.serialize() == *cs { "ok".to_string() } else { "FAIL parsed-to-a-different-machine".to_string() }
+        }
+        Ok(Err(e)) => format!("FAIL rejected: {}", e.to_string().replace('\n', " ")),
+        Err(p) => format!("FAIL panic: {}", panic_msg(&p)),
+    };
+    let _ = writeln!(w, "canary {}", verdict);
+}
+
 /// `from_str` on an arbitrary string
 fn observe_hostile(id: &str, kind: &str, s: &str, w: &mut dyn Write) {
     let _ = writeln!(w, "case {} {}", id, kind);
@@ -304,6 +327,7 @@ fn observe_hostile(id: &str, kind: &str, s: &str, w: &mut dyn Write) {
             let _ = writeln!(w, "r panic {}", panic_msg(&p));
         }
     }
+    canary_line(w);
     let _ = writeln!(w, "peak {} {} {}", peak, s.len(), std::mem::size_of::<State>());
     let _ = writeln!(w, "end");
 }
